@@ -410,8 +410,14 @@ func (d *dataPlane) SetKey(key []byte) error {
 }
 
 func (d *dataPlane) SetPortRange(start, end uint16) {
+	d.mtx.Lock()
+	defer d.mtx.Unlock()
 	d.dispatchedPortStart = start
 	d.dispatchedPortEnd = end
+	// The underlays translate SCION ports to underlay ports; they need the range too.
+	for _, u := range d.underlays {
+		u.SetDispatchPorts(start, end, topology.EndhostPort)
+	}
 }
 
 // AddInternalInterface sets the interface the data-plane will use to send/receive traffic in the
